@@ -54,4 +54,5 @@ MUTANTS = [
     {"id": "c12-resize-tail-of-item", "expect": "fire", "edits": [(C, "                result.append(item.clone(item.text[:remaining_len]))", "                result.append(item.clone(item.text[-remaining_len:]))")]},
     {"id": "c12-resize-remaining-not-reduced", "expect": "fire", "edits": [(C, "                result.append(item)\n                remaining_len -= cur_item_len", "                result.append(item)")]},
     {"id": "c12-n-resize-strict-compare", "expect": "silent", "edits": [(C, "            if cur_item_len <= remaining_len:", "            if cur_item_len < remaining_len:")]},
+    {"id": "c12-resize-cuts-argument-in-place", "expect": "fire", "edits": [(C, "                result.append(item.clone(item.text[:remaining_len]))\n                remaining_len = 0", "                result.append(item.clone(item.text[:remaining_len]))\n                remaining_len = 0\n                del chunks[len(result):]")]},
 ]
